@@ -54,6 +54,13 @@ theorem source_shape :
        "assert!(macro_disabled[macro_index])", "macro_disabled[macro_index] = false",
        "assert!(end > pos)", "let tokens_added = output.len()", "tokens.splice(pos..end, output)"] ∧
     bodyAlwaysRescanned = true ∧
+    -- `##` joins the source spellings of its operands: both through `unlex`, no rendering by token kind
+    concatArmSpelling =
+      ["let left_string = unlex(std::slice::from_ref(left_token), source_manager)",
+       "let right_string = unlex(std::slice::from_ref(right_token), source_manager)",
+       "let new_fragment = format!(\"{left_string}{right_string}\")",
+       "let file_id = source_manager.add_file(FileName(\"<scratch space>\".to_string()), new_fragment)"] ∧
+    concatUsesSourceSpelling = true ∧
     searchPositionUses =
       ["search_pos.early_function_pos",
        "search_pos.last_macro_function_index == macro_index && i < search_pos.next_pos",
@@ -844,7 +851,7 @@ theorem paste_matches_lexer :
                (RsslVerif.Model.Lexer.str (a ++ b)).length⟩]) ∧
     (∀ a ∈ modelOperators, ∀ b ∈ modelOperators,
       punctMerges.contains (a, b) = lexesToOneToken (RsslVerif.Model.Lexer.str (a ++ b))) ∧
-    (∀ (a b : String), a.startsWith "0" = false → (a ++ b).length ≤ 18 →
+    (∀ (a b : String),
       NumberText (RsslVerif.Model.Lexer.str (a ++ b)) →
       pasteTokens ⟨.int a, true⟩ ⟨.int b, true⟩ = .ok ⟨.int (a ++ b), true⟩ ∧
       RsslVerif.Model.Lexer.readToEnd (RsslVerif.Model.Lexer.str (a ++ b)) =
@@ -854,8 +861,52 @@ theorem paste_matches_lexer :
              ⟨.simple .Endline, (RsslVerif.Model.Lexer.str (a ++ b)).length,
                (RsslVerif.Model.Lexer.str (a ++ b)).length⟩]) :=
   ⟨keywords_agree, fun a b k hk hs hkw => paste_identifiers_matches_lexer a b k hk hs hkw,
-   paste_operators_match_lexer, fun a b h0 hl hs => paste_numbers_matches_lexer a b h0 hl hs⟩
+   paste_operators_match_lexer, fun a b hs => paste_numbers_matches_lexer a b hs⟩
 
+
+/-- **paste_joins_source_spellings.** `##` of two numbers in any spelling (hex, octal, leading zeros, suffixes), for
+all operands: the model joins the two SOURCE SPELLINGS (`Tok.int` carries the spelling, as the real token carries its
+span and `unlex` reads the text under it -- pinned by `source_shape`: `concatUsesSourceSpelling`) and the result is
+decided by the lexer model of C10 on the joined spelling: (1) the paste succeeds, with the integer token spelled
+`a ++ b`, iff the lexer reads `a ++ b` as one integer literal; (2) it is `ConcatFailed` iff the lexer does not read
+exactly one token; (3) a successful paste never yields anything but the token spelled `a ++ b`; (4) with an identifier
+on the left the result is the identifier spelled `a ++ b` whatever number spelling stands on the right.
+Concrete instances that a rendering of the operand's VALUE gets wrong follow as `example`s. -/
+theorem paste_joins_source_spellings (a b : String) :
+    (pasteTokens ⟨.int a, true⟩ ⟨.int b, true⟩ = .ok ⟨.int (a ++ b), true⟩ ↔
+      ∃ t, lexOne (a ++ b) = some t ∧ isIntLiteral t = true) ∧
+    (pasteTokens ⟨.int a, true⟩ ⟨.int b, true⟩ = .error .concatFailed ↔ lexOne (a ++ b) = none) ∧
+    (∀ m, pasteTokens ⟨.int a, true⟩ ⟨.int b, true⟩ = .ok m → m = ⟨.int (a ++ b), true⟩) ∧
+    (keywords.contains (a ++ b) = false → pasteTokens ⟨.id a, true⟩ ⟨.int b, true⟩ = .ok ⟨.id (a ++ b), true⟩) := by
+  obtain ⟨h1, h2, h3⟩ := paste_number_spellings_match_lexer a b
+  refine ⟨h1, h2, h3, ?_⟩
+  intro hk
+  have hk' : ¬ (a ++ b) ∈ keywords := by
+    intro hm
+    have : keywords.contains (a ++ b) = true := by simpa using hm
+    rw [hk] at this; cases this
+  simp [pasteTokens, hk']
+
+-- non-vacuity, and the instances a value rendering gets wrong: `0x1 ## 0` is `0x10` = 16 (not `10`), `00 ## 7` is
+-- `007` = 7, `v ## 0x10` is `v0x10` (not `v16`), `slot_ ## 007` is `slot_007` (not `slot_7`), `1u ## 2` is no token
+example : pasteTokens ⟨.int "0x1", true⟩ ⟨.int "0", true⟩ = .ok ⟨.int "0x10", true⟩ ∧
+    lexOne "0x10" = some (.litInt 16) :=
+  have h : lexOne "0x10" = some (.litInt 16) := by decide +kernel
+  ⟨(paste_joins_source_spellings "0x1" "0").1.mpr ⟨_, h, rfl⟩, h⟩
+example : pasteTokens ⟨.int "00", true⟩ ⟨.int "7", true⟩ = .ok ⟨.int "007", true⟩ ∧
+    lexOne "007" = some (.litInt 7) :=
+  have h : lexOne "007" = some (.litInt 7) := by decide +kernel
+  ⟨(paste_joins_source_spellings "00" "7").1.mpr ⟨_, h, rfl⟩, h⟩
+example : pasteTokens ⟨.int "1", true⟩ ⟨.int "2u", true⟩ = .ok ⟨.int "12u", true⟩ ∧
+    lexOne "12u" = some (.litIntU32 12) :=
+  have h : lexOne "12u" = some (.litIntU32 12) := by decide +kernel
+  ⟨(paste_joins_source_spellings "1" "2u").1.mpr ⟨_, h, rfl⟩, h⟩
+example : pasteTokens ⟨.id "v", true⟩ ⟨.int "0x10", true⟩ = .ok ⟨.id "v0x10", true⟩ :=
+  (paste_joins_source_spellings "v" "0x10").2.2.2 (by decide +kernel)
+example : pasteTokens ⟨.id "slot_", true⟩ ⟨.int "007", true⟩ = .ok ⟨.id "slot_007", true⟩ :=
+  (paste_joins_source_spellings "slot_" "007").2.2.2 (by decide +kernel)
+example : pasteTokens ⟨.int "1u", true⟩ ⟨.int "2", true⟩ = .error .concatFailed :=
+  (paste_joins_source_spellings "1u" "2").2.1.mpr (by decide +kernel)
 
 /-! ## Refinement of the reference on the tame class with `##` -/
 
